@@ -137,6 +137,26 @@ class C07(Spec):
         for n in range(1, maxlen + 1):
             for combo in itertools.product(rep, repeat=n):
                 cases.append(ui_case(world, list(combo), feeds=feeds))
+        # history walks: pages of every kind (item, link target, command target, empty feed) opened from one another,
+        # with runs of h / l in between
+        def opener():
+            r = rng.random()
+            if r < 0.3:
+                return [ord(" ")]
+            if r < 0.45:
+                return [ord("1"), ord(".")]
+            if r < 0.65:
+                return [ord(c) for c in ":feed empty"] + [13]
+            if r < 0.8:
+                return [ord(c) for c in ":feed main"] + [13]
+            return [ord(c) for c in ":open http://dead.invalid/z"] + [13]
+        for _ in range(80 if tier == "quick" else 4000):
+            w = thread_world(rng)
+            keys = []
+            for _ in range(rng.randint(2, 7)):
+                keys += opener()
+                keys += [ord(rng.choice("hhhlllj")) for _ in range(rng.randint(0, 5))]
+            cases.append(ui_case(w, keys, feeds=feeds))
         for _ in range(250 if tier == "quick" else 15000):
             w = thread_world(rng)
             keys = rand_keys(rng, rng.randint(5, 60))
